@@ -22,7 +22,8 @@ fn main() {
     }
     let stdin = io::stdin();
     let stdout = io::stdout();
-    let mut out = io::BufWriter::new(stdout.lock());
+    // one flushed line per input: the runner attributes a hang or a crash to the first input without an answer
+    let mut out = io::LineWriter::new(stdout.lock());
     let mut lines = stdin.lock().lines().map(|l| l.expect("stdin"));
     if !dispatch(args[1].as_str(), &args[2..], &mut lines, &mut out) {
         eprintln!("unknown command {}", args[1]);
